@@ -9,7 +9,7 @@
 From Coq Require Import Reals Lra List.
 From D3 Require Import Base.Ops Base.Vec Base.RVec Base.RVec2 Spec.Convex Spec.Prims Model.DistPrim
   Proofs.DistBase Proofs.DistPoint Proofs.DistRect
-  Proofs.DistTriangle Proofs.DistRound Proofs.DistLine Proofs.DistPlane Proofs.DistPlaneHull.
+  Proofs.DistTriangle Proofs.DistRound Proofs.DistLine Proofs.DistPlane Proofs.DistPlaneHull Model.DistPrimComb Proofs.DistComb.
 Local Open Scope R_scope.
 (* [exists d c1 c2, f args = (d, c1, c2) /\ _]: name the components of the model's result *)
 Ltac ex3 := match goal with |- exists d c1 c2, ?e = _ /\ _ =>
@@ -268,3 +268,111 @@ Theorem C10_plane_to_box_refuted :
     plane_to_box pp pn T sz = (d, c1, c2, arm) /\ ~ feasible (plane_set pp pn) (box_of T sz) d c1 c2.
 Proof. exact plane_to_box_feasible_refuted. Qed.
 Print Assumptions C10_plane_to_box_refuted.
+
+(** ** Combinators (Model/DistPrimComb.v): feasibility is inherited from the callees for every enumeration order
+    and every early exit.  All carry [d < max_float] (= np.finfo(float).max as a real number): the loops start from
+    best_dist = MAX_FLOAT with unbound point variables (the Python code would raise UnboundLocalError otherwise).
+    [feasible_eps A B eps d p1 p2]: as [feasible], except that d may be the literal 0 returned by an early exit
+    while |p1 - p2| <= eps. *)
+Theorem C10_line_to_triangle (lp ld a b c : V3R) (eps : R) d c1 c2 :
+  dot ld ld = 1 -> 0 <= eps <= 1 ->
+  line_to_triangle lp ld a b c eps = (d, c1, c2) -> d < max_float ->
+  feasible (line_set lp ld) (triangle_set a b c) d c1 c2.
+Proof. exact (line_to_triangle_feasible lp ld a b c eps d c1 c2). Qed.
+Print Assumptions C10_line_to_triangle.
+Example C10_line_to_triangle_nonvacuous :
+  exists lp ld a b c eps d c1 c2,
+    dot ld ld = 1 /\ 0 <= eps <= 1 /\ line_to_triangle lp ld a b c eps = (d, c1, c2) /\ d < max_float /\
+    feasible (line_set lp ld) (triangle_set a b c) d c1 c2.
+Proof. exact line_to_triangle_nonvacuous. Qed.
+
+Theorem C10_line_segment_to_triangle (s e a b c : V3R) (eps : R) d c1 c2 :
+  s <> e -> 0 <= eps <= 1 -> cross (vsub b a) (vsub c a) <> vzero ->
+  line_segment_to_triangle s e a b c eps = (d, c1, c2) -> d < max_float ->
+  feasible (segment_set s e) (triangle_set a b c) d c1 c2.
+Proof. exact (line_segment_to_triangle_feasible s e a b c eps d c1 c2). Qed.
+Print Assumptions C10_line_segment_to_triangle.
+Example C10_line_segment_to_triangle_nonvacuous :
+  exists s e a b c eps d c1 c2,
+    s <> e /\ 0 <= eps <= 1 /\ cross (vsub b a) (vsub c a) <> vzero /\
+    line_segment_to_triangle s e a b c eps = (d, c1, c2) /\ d < max_float /\
+    feasible (segment_set s e) (triangle_set a b c) d c1 c2.
+Proof. exact line_segment_to_triangle_nonvacuous. Qed.
+
+Theorem C10_triangle_to_triangle (a1 b1 c1 a2 b2 c2 : V3R) (eps : R) d p1 p2 :
+  cross (vsub b1 a1) (vsub c1 a1) <> vzero -> cross (vsub b2 a2) (vsub c2 a2) <> vzero -> 0 <= eps <= 1 ->
+  triangle_to_triangle a1 b1 c1 a2 b2 c2 eps = (d, p1, p2) -> d < max_float ->
+  feasible_eps (triangle_set a1 b1 c1) (triangle_set a2 b2 c2) eps d p1 p2.
+Proof. exact (triangle_to_triangle_feasible a1 b1 c1 a2 b2 c2 eps d p1 p2). Qed.
+Print Assumptions C10_triangle_to_triangle.
+Example C10_triangle_to_triangle_nonvacuous :
+  exists a1 b1 c1 a2 b2 c2 eps d p1 p2,
+    cross (vsub b1 a1) (vsub c1 a1) <> vzero /\ cross (vsub b2 a2) (vsub c2 a2) <> vzero /\ 0 <= eps <= 1 /\
+    triangle_to_triangle a1 b1 c1 a2 b2 c2 eps = (d, p1, p2) /\ d < max_float /\
+    feasible_eps (triangle_set a1 b1 c1) (triangle_set a2 b2 c2) eps d p1 p2.
+Proof. exact triangle_to_triangle_nonvacuous. Qed.
+
+Theorem C10_line_to_rectangle (lp ld c a0 a1 : V3R) (l0 l1 eps : R) d c1 c2 :
+  dot ld ld = 1 -> 0 <= eps <= 1 -> 0 <= l0 -> 0 <= l1 ->
+  line_to_rectangle lp ld c a0 a1 l0 l1 eps = (d, c1, c2) -> d < max_float ->
+  feasible (line_set lp ld) (rectangle_set c a0 a1 l0 l1) d c1 c2.
+Proof. exact (line_to_rectangle_feasible lp ld c a0 a1 l0 l1 eps d c1 c2). Qed.
+Print Assumptions C10_line_to_rectangle.
+Example C10_line_to_rectangle_nonvacuous :
+  exists lp ld c a0 a1 l0 l1 eps d c1 c2,
+    dot ld ld = 1 /\ 0 <= eps <= 1 /\ 0 <= l0 /\ 0 <= l1 /\
+    line_to_rectangle lp ld c a0 a1 l0 l1 eps = (d, c1, c2) /\ d < max_float /\
+    feasible (line_set lp ld) (rectangle_set c a0 a1 l0 l1) d c1 c2.
+Proof. exact line_to_rectangle_nonvacuous. Qed.
+
+Theorem C10_line_segment_to_rectangle (s e c a0 a1 : V3R) (l0 l1 eps : R) d c1 c2 :
+  s <> e -> 0 <= eps <= 1 -> 0 <= l0 -> 0 <= l1 ->
+  line_segment_to_rectangle s e c a0 a1 l0 l1 eps = (d, c1, c2) -> d < max_float ->
+  feasible (segment_set s e) (rectangle_set c a0 a1 l0 l1) d c1 c2.
+Proof. exact (line_segment_to_rectangle_feasible s e c a0 a1 l0 l1 eps d c1 c2). Qed.
+Print Assumptions C10_line_segment_to_rectangle.
+Example C10_line_segment_to_rectangle_nonvacuous :
+  exists s e c a0 a1 l0 l1 eps d c1 c2,
+    s <> e /\ 0 <= eps <= 1 /\ 0 <= l0 /\ 0 <= l1 /\
+    line_segment_to_rectangle s e c a0 a1 l0 l1 eps = (d, c1, c2) /\ d < max_float /\
+    feasible (segment_set s e) (rectangle_set c a0 a1 l0 l1) d c1 c2.
+Proof. exact line_segment_to_rectangle_nonvacuous. Qed.
+
+Theorem C10_triangle_to_rectangle (a b c rc a0 a1 : V3R) (l0 l1 : R) d p1 p2 :
+  cross (vsub b a) (vsub c a) <> vzero -> a0 <> vzero -> a1 <> vzero -> 0 < l0 -> 0 < l1 ->
+  triangle_to_rectangle a b c rc a0 a1 l0 l1 = (d, p1, p2) -> d < max_float ->
+  feasible (triangle_set a b c) (rectangle_set rc a0 a1 l0 l1) d p1 p2.
+Proof. exact (triangle_to_rectangle_feasible a b c rc a0 a1 l0 l1 d p1 p2). Qed.
+Print Assumptions C10_triangle_to_rectangle.
+Example C10_triangle_to_rectangle_nonvacuous :
+  exists a b c rc a0 a1 l0 l1 d p1 p2,
+    cross (vsub b a) (vsub c a) <> vzero /\ a0 <> vzero /\ a1 <> vzero /\ 0 < l0 /\ 0 < l1 /\
+    triangle_to_rectangle a b c rc a0 a1 l0 l1 = (d, p1, p2) /\ d < max_float /\
+    feasible (triangle_set a b c) (rectangle_set rc a0 a1 l0 l1) d p1 p2.
+Proof. exact triangle_to_rectangle_nonvacuous. Qed.
+
+Theorem C10_rectangle_to_rectangle (c1 a10 a11 : V3R) (l10 l11 : R) (c2 a20 a21 : V3R) (l20 l21 eps : R) d p1 p2 :
+  a10 <> vzero -> a11 <> vzero -> 0 < l10 -> 0 < l11 -> a20 <> vzero -> a21 <> vzero -> 0 < l20 -> 0 < l21 ->
+  rectangle_to_rectangle c1 a10 a11 l10 l11 c2 a20 a21 l20 l21 eps = (d, p1, p2) -> d < max_float ->
+  feasible (rectangle_set c1 a10 a11 l10 l11) (rectangle_set c2 a20 a21 l20 l21) d p1 p2.
+Proof. exact (rectangle_to_rectangle_feasible c1 a10 a11 l10 l11 c2 a20 a21 l20 l21 eps d p1 p2). Qed.
+Print Assumptions C10_rectangle_to_rectangle.
+Example C10_rectangle_to_rectangle_nonvacuous :
+  exists c1 a10 a11 l10 l11 c2 a20 a21 l20 l21 eps d p1 p2,
+    a10 <> vzero /\ a11 <> vzero /\ 0 < l10 /\ 0 < l11 /\ a20 <> vzero /\ a21 <> vzero /\ 0 < l20 /\ 0 < l21 /\
+    rectangle_to_rectangle c1 a10 a11 l10 l11 c2 a20 a21 l20 l21 eps = (d, p1, p2) /\ d < max_float /\
+    feasible (rectangle_set c1 a10 a11 l10 l11) (rectangle_set c2 a20 a21 l20 l21) d p1 p2.
+Proof. exact rectangle_to_rectangle_nonvacuous. Qed.
+
+Theorem C10_rectangle_to_box (rc a0 a1 : V3R) (l0 l1 : R) (T : Pose R) (sz : V3R) (eps : R) d p1 p2 :
+  a0 <> vzero -> a1 <> vzero -> 0 < l0 -> 0 < l1 -> is_rotation (rot T) -> 0 < vx sz -> 0 < vy sz -> 0 < vz sz ->
+  rectangle_to_box rc a0 a1 l0 l1 T sz eps = (d, p1, p2) -> d < max_float ->
+  feasible (rectangle_set rc a0 a1 l0 l1) (box_of T sz) d p1 p2.
+Proof. exact (rectangle_to_box_feasible rc a0 a1 l0 l1 T sz eps d p1 p2). Qed.
+Print Assumptions C10_rectangle_to_box.
+Example C10_rectangle_to_box_nonvacuous :
+  exists rc a0 a1 l0 l1 T sz eps d p1 p2,
+    a0 <> vzero /\ a1 <> vzero /\ 0 < l0 /\ 0 < l1 /\ is_rotation (rot T) /\ 0 < vx sz /\ 0 < vy sz /\ 0 < vz sz /\
+    rectangle_to_box rc a0 a1 l0 l1 T sz eps = (d, p1, p2) /\ d < max_float /\
+    feasible (rectangle_set rc a0 a1 l0 l1) (box_of T sz) d p1 p2.
+Proof. exact rectangle_to_box_nonvacuous. Qed.
